@@ -910,21 +910,21 @@ class Frame(object):
         drift_rate = unit_utils.get_value(drift_rate, u.Hz / u.s)
         width = unit_utils.get_value(width, u.Hz)
 
-        start_index = self.get_index(f_start)
+        # Fractional channel position of the signal center at the start
+        start_px = (f_start - self.fmin) / self.df
 
-        # Calculate the bounding box, to optimize signal insertion calculation
+        # Calculate the bounding box, to optimize signal insertion calculation.
+        # Round outwards, and make the upper (exclusive) index cover the last pixel
         px_width_offset = 2 * width / self.df
-        if drift_rate < 0:
-            px_width_offset = -px_width_offset
         px_drift_offset = self.dt * (self.tchans - 1) * drift_rate / self.df
         if doppler_smearing:
             px_drift_offset += drift_rate * self.dt / self.df
 
-        bounding_start_index = start_index + int(-px_width_offset)
-        bounding_stop_index = start_index + int(px_drift_offset + px_width_offset)
+        bounding_start = start_px + min(px_drift_offset, 0) - px_width_offset
+        bounding_stop = start_px + max(px_drift_offset, 0) + px_width_offset
 
-        bounding_min_index = max(min(bounding_start_index, bounding_stop_index), 0)
-        bounding_max_index = min(max(bounding_start_index, bounding_stop_index), self.fchans)
+        bounding_min_index = min(max(int(np.floor(bounding_start)), 0), self.fchans)
+        bounding_max_index = min(max(int(np.ceil(bounding_stop)) + 1, 0), self.fchans)
 
         # Select common frequency profile types
         if f_profile_type == 'gaussian':
